@@ -503,6 +503,17 @@ func streamDispatch(g *G) { // C01
 	for !g.full() {
 		g.history(rid, histCfg{useIc: g.chance(0.5), trace: g.chance(0.2), probes: 6, urlProbes: true, siblings: g.chance(0.3), oddRequest: 0.05}, 6+g.intn(20))
 		rid++
+		if g.chance(0.3) { // a refusing interceptor in front of literal text that occurs several times in the path
+			fam := overlapFamilies[g.intn(len(overlapFamilies))]
+			g.routerLine(rid, routerOpt{name: "ov", icpt: icptTable})
+			for i, p := range fam.pats {
+				g.emit("handle %d %s %d %%- %s", rid, encB(p), i+1, encL([]string{"GET"}))
+			}
+			for _, path := range fam.paths {
+				g.serveLine("serve", rid, g.pick([]string{"GET", "GET", "OPTIONS", "POST"}), path, "", nil)
+			}
+			rid++
+		}
 	}
 }
 
@@ -514,6 +525,9 @@ var overlapFamilies = []struct{ pats, paths []string }{
 	{[]string{"/o/{a:any}aa", "/o/{a:any}aa/z"}, []string{"/o/aaa", "/o/aaaa", "/o/aa", "/o/aaa/z", "/o/baa", "/o/aaaaa/z"}},
 	{[]string{"/w{w:word}abab/{n}", "/w{w:word}abab"}, []string{"/wababab/1", "/wabababab", "/wxabab/2", "/wabab/3", "/wab-abab/4", "/w-ababab"}},
 	{[]string{"/d/{id:digit}11/x", "/d/{id:digit}11/y"}, []string{"/d/111/x", "/d/1111/y", "/d/11/x", "/d/a111/x", "/d/2111/y", "/d/1a11/x"}},
+	// the suffix occurs three times and more, the FIRST TWO candidates are refused: second and later retries
+	{[]string{"/p/{id:digit}/{tail}", "/p/{id:digit}/{tail}/z"}, []string{"/p/1234x/y/z/rest", "/p/20x///7", "/p/1x/2y/3/4", "/p/a/b/c/d", "/p/12/x", "/p/1x/y/z/w/z"}},
+	{[]string{"/q/{w:word}-{n}"}, []string{"/q/a.b-c.d-e-f", "/q/a.-b.-c-d", "/q/.-.-.-x", "/q/ab-cd", "/q/a.-b-c"}},
 }
 
 func streamResolve(g *G) { // C02: add-only tables, several registration orders
@@ -659,6 +673,27 @@ func streamLifecycle(g *G) { // C03
 		rid++
 		if g.chance(0.3) {
 			g.manualTraceFamily(rid)
+			rid++
+		}
+		if g.chance(0.35) {
+			// an interior pattern (a longer route lives below it) loses its last method BY NAME — the node stays, with an empty
+			// table — and is registered again: it is a live route again, with its automatic OPTIONS/405 entries
+			g.routerLine(rid, routerOpt{name: "int", trace: g.chance(0.3)})
+			pa := g.pick([]string{"/posts", "/v/{id}", "/s/x"})
+			m0 := g.pick([]string{"GET", "POST", "DELETE"})
+			g.emit("handle %d %s 1 %%- %s", rid, encB(pa), encL([]string{m0}))
+			g.emit("handle %d %s 2 %%- %s", rid, encB(pa+"/{sub}"), encL([]string{"GET"}))
+			g.emit("remove %d %s %s", rid, encB(pa), encL([]string{m0, "PATCH"}))
+			probe := func() {
+				g.emit("routes %d", rid)
+				for _, m := range []string{"GET", "HEAD", "OPTIONS", "POST", "DELETE"} {
+					g.serveLine("serve", rid, m, g.instantiate(pa, []string{"5"}), "", nil)
+				}
+				g.serveLine("serve", rid, "GET", g.instantiate(pa+"/{sub}", []string{"5", "7"}), "", nil)
+			}
+			probe()
+			g.emit("handle %d %s 3 %%- %s", rid, encB(pa), encL([]string{g.pick([]string{"GET", "PUT"})}))
+			probe()
 			rid++
 		}
 	}
